@@ -363,14 +363,17 @@ def unplaced_reads(n):
     return fn
 
 
-def random_library(rng, method, big=False):
+def random_library(rng, method, big=False, n_small=0):
     """molecules straddling the boundaries of a grid (bin size B, margin F) on 1-3 contigs, trimmed reads of unequal
     length, PCR duplicates with different R2 ends, rejected reads, single-end reads, unplaced reads"""
     B = rng.choice([300, 400, 500])
     F = rng.choice([60, 80, 120])
     nct = rng.randint(1, 3)
-    if big:
-        contigs = [('chr%d' % (i + 1), rng.choice([100000, 130000, 250000])) for i in range(nct)]
+    if big:     # contig-per-process layouts: big (>= 100 kb) contigs with n_small small ones (< 100 kb) in any position
+        lens = [rng.choice([100000, 130000, 250000]) for _ in range(rng.randint(1, 2))] + \
+               [rng.choice([4 * B + 11, 20000, 99999]) for _ in range(n_small)]
+        rng.shuffle(lens)
+        contigs = [('chr%d' % (i + 1), l) for i, l in enumerate(lens)]
     else:
         ragged = rng.random() < 0.3            # contig lengths that are no multiple of the grid
         contigs = [('chr%d' % (i + 1), rng.choice([3, 4, 5]) * B + (rng.choice([0, 37, B // 2]) if ragged else 0)) for i in range(nct)]
@@ -407,6 +410,10 @@ def random_library(rng, method, big=False):
                               'cell': cell, 'dup_in': rng.random() < 0.1,
                               'r2_unmapped': (not single) and rng.random() < 0.08})
     frags = [f for f in frags if f['l1'] <= f['hi'] - f['lo'] and f['l2'] <= f['hi'] - f['lo']]
+    for c in range(len(contigs)):       # every contig carries reads
+        if not any(f['c'] == c for f in frags):
+            frags.append({'c': c, 'lo': B + 3, 'hi': B + 43, 'rev': False, 'l1': 30, 'l2': 20, 'valid': True, 'umi': 'AAA',
+                          'cell': 'cellA', 'dup_in': False, 'r2_unmapped': False})
     frags.sort(key=lambda f: (f['c'], f['lo']))
     return {'B': B, 'F': F, 'contigs': contigs, 'frags': frags, 'nun': rng.choice([0, 1, 3]), 'maxext': maxext}
 
@@ -462,7 +469,7 @@ def main():
                 emit(run_scenario(tagging, scn, tmp, tid))
 
         # ---- random libraries: hand-made tilings, region API, contig-per-process CLI
-        nlib, ntil, napi, npool, ncpp = (24, 6, 16, 3, 5) if tier == 'quick' else (250, 16, 100, 20, 32)
+        nlib, ntil, napi, npool, ncpp = (24, 6, 16, 3, 6) if tier == 'quick' else (250, 16, 100, 20, 36)
         for k in range(nlib):
             method = 'nla' if k % 3 != 2 else 'chic'
             lib = random_library(rng, method)
@@ -488,7 +495,7 @@ def main():
                 jobs, merged, raised, plan = run_api(btm, bam, par, method, lib['contigs'], tmp, seg, jobbp, fsize, use_pool, threads, order)
                 tid += 1
                 emit({'ev': 'run', 'tid': tid, 'mode': 'api', 'method': method, 'contigs': clens, 'serial': ser, 'jobs': jobs,
-                      'plan': plan, 'merged': merged, 'raised': raised,
+                      'plan': plan, 'merged': merged, 'raised': raised, 'req': fsize,
                       'case': dict(case, api={'seg': seg, 'fsize': fsize, 'jobbp': jobbp, 'use_pool': use_pool, 'threads': threads,
                                                  'order': order})})
             for p in os.listdir(tmp):
@@ -496,7 +503,9 @@ def main():
                     os.remove(os.path.join(tmp, p))
         for k in range(ncpp):
             method = 'nla' if k % 2 == 0 else 'chic'
-            lib = random_library(rng, method, big=True)
+            lib = random_library(rng, method, big=True, n_small=[1, 0, 2, 1, 3, 0][k % 6])
+            if lib['nun'] == 0 and k % 2 == 0:
+                lib['nun'] = 2
             bam = os.path.join(tmp, 'big%d.bam' % k)
             write_library(bam, lib['contigs'], method, lib['frags'], unplaced_reads(lib['nun']))
             ser = serial_cli(btm, bam, os.path.join(tmp, 'bser%d.bam' % k), method, lib['contigs'])
@@ -554,7 +563,7 @@ def replay_case(case_path, outp):
             a = case['api']
             jobs, merged, raised, plan = run_api(btm, bam, os.path.join(tmp, 'par.bam'), method, lib['contigs'], tmp, a['seg'],
                                                  a['jobbp'], a['fsize'], a['use_pool'], a['threads'], a.get('order'))
-            ev.update(mode='api', jobs=jobs, merged=merged, raised=raised, plan=plan)
+            ev.update(mode='api', jobs=jobs, merged=merged, raised=raised, plan=plan, req=a['fsize'])
         else:
             jobs, merged, raised, plan = run_cpp(btm, bam, os.path.join(tmp, 'par.bam'), method, lib['contigs'], tmp,
                                                  case['cpp']['threads'])
